@@ -181,7 +181,11 @@ fn fam_rulegraphs(tier: Tier) -> Vec<Case> {
 
 fn fam_depth(tier: Tier) -> Vec<Case> {
   let depths: Vec<usize> = tier.pick(vec![1, 2, 4, 8, 16, 32, 64], (1..=64).collect());
-  let kinds: [(&str, &str); 8] = [("[", "]"), ("{a: ", "}"), ("(", ")"), ("[(", ")]"), ("&(a: ", ")"), ("#6.1(", ")"), ("m<", ">"), ("[* ", "]")];
+  // the last four carry an operator at every level (target side and controller side)
+  let kinds: [(&str, &str); 12] = [
+    ("[", "]"), ("{a: ", "}"), ("(", ")"), ("[(", ")]"), ("&(a: ", ")"), ("#6.1(", ")"), ("m<", ">"), ("[* ", "]"),
+    ("[", "] .size 1"), ("(", ") .ne 1"), ("{a: ", "} .eq 1"), ("int .and (", ")"),
+  ];
   let mut out = vec![];
   for &d in &depths {
     for (o, cl) in kinds {
@@ -676,7 +680,7 @@ pub fn run(tier: Tier) -> i32 {
     decode_cbor and validate_cbor_from_slice with three schemas); hostile (every container / string head width x 14 announced lengths up to 2^64-1 x 13 nesting prefixes incl. inside \
     indefinite strings x 5 payload tails; tag 1 with integer and float boundaries; JSON time boundaries); rulegraphs (every document of 1 and 2 rules, and 3-rule cycles, whose bodies \
     reference each other through 27 constructs: alias, controls, arrays, maps, keys, choices, unwrap, group-to-choice, generic application, tags, range bounds, group rules - each parsed, \
-    formatted, checked and validated against 12 JSON / CBOR documents); depth (8 bracket kinds and 5 CBOR nestings at depths 1..64, deep choices); size (20 generators doubling up to 8 KiB \
+    formatted, checked and validated against 12 JSON / CBOR documents); depth (12 bracket kinds, four of them with an operator at every level, and 5 CBOR nestings at depths 1..64, deep choices); size (20 generators doubling up to 8 KiB \
     (thorough 64 KiB): long literals, comments, many rules, alias chains, wide choices / maps, long arrays against backtracking-prone groups, wide maps, regex, CSV); text (malformed \
     controller arguments, out-of-range numbers, undefined / ill-applied generics, malformed JSON / CSV / CDDL texts). Oracle: the call returns (Ok or Err): no panic, no abort, no signal, \
     no watchdog kill; within the size family time may grow at most 16x when the input doubles (once above 50 ms). non-trivial = cases completed."
